@@ -67,7 +67,8 @@ def check(ctx):
         ctx.ob("C16-R1", f.fq, "FileNotFoundError from the cache is caught on the way and turned into the undefined marker / None", handled, node=f.node,
                construct="missing key handled as undefined", msg=f"{f.cls}.get lets FileNotFoundError escape for a key that was never set: `store?\"nokey\"` raises instead of yielding :undefined")
         # and the facade returns KLONG_UNDEFINED on that path
-        rets = [src(r.value) for r in walk_local(f.node) if isinstance(r, ast.Return) and r.value is not None]
+        from ..flow import return_alts
+        rets = [src(v) for _facts, v, _r in return_alts(f.node) if v is not None]
         ctx.ob("C16-R1", f.fq, "the facade can return the undefined marker", any("KLONG_UNDEFINED" in r for r in rets), node=f.node, construct="facade returns KLONG_UNDEFINED")
 
     # ---- R6
@@ -141,6 +142,12 @@ def check(ctx):
                 cs = [c for c in calls_in(f.node) if isinstance(c.func, ast.Attribute) and dotted(c.func.value) == "self.cache"]
                 for c in cs:
                     a0 = c.args[0] if c.args else None
+                    if isinstance(a0, ast.Name):
+                        # a local holding the mapped key: every binding of it must be the same expression
+                        from ..common import name_defs
+                        ds = name_defs(f.node, a0.id)
+                        if ds and len({src(v) for v, _st in ds}) == 1:
+                            a0 = ds[0][0]
                     sides[f.name] = src(a0.func) if isinstance(a0, ast.Call) and a0.args and isinstance(a0.args[0], ast.Name) and a0.args[0].id == f.params()[1] else f"?{src(a0) if a0 is not None else ''}"
         ctx.instance("C16-R2", f"{KVS}:{cls}")
         ctx.ob("C16-R2", f"{KVS}:{cls}", f"get and set map the key through the same function ({sides})", len(sides) == 2 and len(set(sides.values())) == 1 and set(sides.values()) == {k2p.name},
